@@ -5991,6 +5991,14 @@ class LazyContainer(dict):
     def __len__(self):
         return len(self._struct.subcons)
 
+    def __contains__(self, name):
+        return name in self._struct._subconsindexes
+
+    def get(self, name, default=None):
+        if name in self._struct._subconsindexes:
+            return self[name]
+        return default
+
     def keys(self):
         return iter(self._struct._subcons)
 
